@@ -105,10 +105,11 @@ func checkC08(c *Ctx) {
 			return dest == "Analog.Note" || dest == "Analog.NoteNeg" || dest == "Analog.Bidirectional"
 		})
 	}
-	c.importRules(configIntactRules, []string{"R3.7"}, "R8.10")        // axis mappings (notes, offsets) are read from an unmodified copy of the parsed configuration
+	c.importRules(configIntactRules, []string{"R3.7"}, "R8.10")                                                                                                   // axis mappings (notes, offsets) are read from an unmodified copy of the parsed configuration
 	c.importRulesWhere(checkC05, []string{"R5.4"}, "R8.12", func(k string) bool { return strings.Contains(k, "NoteEvent") && strings.HasSuffix(k, "/velocity") }) // the Note On of an emulated key has a velocity of at least 1 (with 0 it is a Note Off on the wire)
-	c.importRules(shiftRules, []string{"R6.19"}, "R8.13") // the thresholds meet a position in -1..1: an unsigned one is converted whatever else the mapping says
-	c.importRules(repetitionRules, []string{"R6.17", "R6.4"}, "R8.11") // the first report of an axis is not dropped as a repetition of a position it never reported
+	c.importRules(shiftRules, []string{"R6.19"}, "R8.13")                                                                                                         // the thresholds meet a position in -1..1: an unsigned one is converted whatever else the mapping says
+	c.importRules(repetitionRules, []string{"R6.21"}, "R8.14")                                                                                                    // notes, offsets and the deadzone are those of the mapping selected now, not a memo from before a mapping switch
+	c.importRules(repetitionRules, []string{"R6.17", "R6.4"}, "R8.11")                                                                                            // the first report of an axis is not dropped as a repetition of a position it never reported
 	c.MinCount("R8.1", 5)
 	c.MinCount("R8.4", 1)
 	c.MinCount("R8.5", 3)
@@ -846,9 +847,11 @@ func checkC07(c *Ctx) {
 		}
 	}
 	sort.Strings(ws)
-	ruleDispatch(c, dv, "R7.6", false, true)                      // every axis report (incl. the one that crosses the centre) reaches the side logic
-	c.importRules(configIntactRules, []string{"R3.7"}, "R7.7")    // controller numbers and offsets are read from an unmodified copy of the parsed configuration
-	c.importRules(emulationReachRules, []string{"R8.9b"}, "R7.8") // every new position of a controller axis reaches the side logic
+	ruleDispatch(c, dv, "R7.6", false, true)                         // every axis report (incl. the one that crosses the centre) reaches the side logic
+	c.importRules(configIntactRules, []string{"R3.7"}, "R7.7")       // controller numbers and offsets are read from an unmodified copy of the parsed configuration
+	c.importRules(rescaleRules, []string{"R6.11", "R6.13"}, "R7.11") // the side logic is told the truth about the position's range: a centred unsigned position (-1..1 after the shift) is not treated as an uncentred 0..1 one
+	c.importRules(repetitionRules, []string{"R6.21"}, "R7.10")       // controller numbers, offsets and the deadzone are those of the mapping selected now, not a memo from before a mapping switch
+	c.importRules(emulationReachRules, []string{"R8.9b"}, "R7.8")    // every new position of a controller axis reaches the side logic
 	c.MinCount("R7.1", 5)
 	c.MinCount("R7.4", 1)
 	if hasFlags {
